@@ -22,6 +22,7 @@ from . import fmt_common as F
 
 PROP = "C09"
 INNOCUOUS = "innocuous"
+HALT_KW = "halt-comment-kwarg"
 EOLS = ["\\n", "\\r\\n", "\\r"]
 
 # ------------------------------------------------------------------ entry points
@@ -74,6 +75,9 @@ def entry_points():
                      lambda t: _cmd("G1", [("X", 1), ("Y", 0), ("Z", 0)])(t) + _cmd("G1", [("X", 1), ("Y", 1), ("Z", 0)])(t)),
         "emergency_halt": (lambda g, t: g.emergency_halt(t), _ehalt(False)),
         "emergency_halt-reset": (lambda g, t: g.emergency_halt(t, reset=True), _ehalt(True)),
+        # not a text entry point of the API (halt takes "arbitrary command parameters"): exercised only when the
+        # finding HaltCommentKwarg is listed in known_findings.json - oracle only, no model
+        HALT_KW: (lambda g, t: g.halt("pause", comment=t), lambda t: []),
     }
 
 
@@ -129,7 +133,7 @@ def judge(R, sess, name, text, model_recs, label):
             "text:" + ("has-closing-delimiter" if sess.closing and sess.closing in text else "no-closing-delimiter"),
             "outcome:" + (exc or "ok"))
     # ---- correspondence
-    if model_recs is not None:
+    if model_recs:
         impl_rec = exc or observe(raw, sess.opening, sess.closing)
         if any(not m.startswith("ok ") for m in model_recs):
             mo = next(m for m in model_recs if not m.startswith("ok "))
@@ -235,7 +239,8 @@ def run(R: core.Run):
     if not F.repo_styles_match():
         R.notes.append("COMMENT_OPENINGS/ENDINGS of the tree under test differ from the harness table")
         R.count("styles-table-differs")
-    names = list(entry_points())
+    listed = {f["id"] for f in core.load_findings(PROP) if f.get("status") == "finding"}
+    names = [n for n in entry_points() if n != HALT_KW or "HaltCommentKwarg" in listed]
     rng = R.rng
     # corpus: the historic escapes under every style and entry point
     corpus = [(sym, rng.choice(EOLS), name, t) for sym in F.ALL_SYMBOLS for name in names for t in
@@ -281,7 +286,22 @@ def run(R: core.Run):
             sym = rng.choice(F.ALL_SYMBOLS)
             more.append((sym, rng.choice(EOLS), rng.choice(names), gen_text(rng, F.style_of(sym)[1])))
         run_batch(R, more, "search", fresh=False, oracle_only=True)
-    return {}, {}
+    return FINDING_PREDICATES, WITNESSES
+
+
+def witness_halt_comment_kwarg():
+    """`halt('pause', comment=text)`: comment= is taken as a parameter and written verbatim"""
+    s = Session(";", "\\n", True)
+    exc, raw = s.call(HALT_KW, "x\nG1 X9")
+    bexc, braw = s.call(HALT_KW, INNOCUOUS)
+    bad = exc is None and (F.strip_comments(raw, ";", "") != F.strip_comments(braw, ";", "")
+                           or F.break_count(raw) != F.break_count(braw))
+    return bad, f"g.halt('pause', comment='x\\nG1 X9') wrote {raw!r}"
+
+
+# structural predicates (call site), never "the oracle failed"
+FINDING_PREDICATES = {"HaltCommentKwarg": lambda fl: isinstance(fl.get("case"), dict) and fl["case"].get("entry") == HALT_KW}
+WITNESSES = {"HaltCommentKwarg": witness_halt_comment_kwarg}
 
 
 def replay(data):
